@@ -30,6 +30,10 @@ theorem c01_no_loss (hn : 0 < n) (hr : ReachableX n s) :
   · exact Or.inl (released_mem_delivered s hi k hk')
   · exact Or.inr ⟨by omega, hi.bufOk k (by omega) hk⟩
 
+theorem step_rLen (x : St) (t g : Nat) (e : x.thr t = .rLen g) :
+    step x t = setThr x t (.done (.pubIdx (some (max 1 (U32.wsub (U32.wrap g) (U32.wrap x.head)))))) := by
+  simp only [step, e]
+
 /-- `accepted` grows only by a successful `tail` CAS of the publishing thread — by exactly the value that thread
     wrote under its own sequence number — and that thread then reports success (after measuring the length at `pLen`,
     from where the only step leads to `done (sent _)`); no other action touches it -/
@@ -41,7 +45,7 @@ theorem c01_accept_only_by_success (hn : 0 < n) (hr : ReachableX n s) :
             ∃ l, (step (step s t) t).thr t = .done (.sent l))
       ∨ (∃ id idx g, s.thr t = .rPub id idx g ∧ s.tail = g ∧ g = id ∧ idx = id % s.N ∧
             (step s t).accepted = s.accepted ++ [s.buf idx] ∧
-            (step s t).thr t = .done (.pubIdx (some (max 1 (g - s.head))))) := by
+            (step s t).thr t = .rLen g ∧ ∃ l, (step (step s t) t).thr t = .done (.pubIdx (some l))) := by
   have hi := reachable_inv hn hr
   refine ⟨fun a ha => (apply_frame s a ha).2.2.2.2.1, ?_⟩
   intro t
@@ -59,7 +63,9 @@ theorem c01_accept_only_by_success (hn : 0 < n) (hr : ReachableX n s) :
       have := hi.hTN; have := hi.hHT
       have hg : g = id :=
         eq_of_mod_eq_of_window (a := s.tail) (N := s.N) (by omega) (by omega) (by omega) (by omega) (by omega)
-      exact Or.inr (Or.inr ⟨id, idx, g, rfl, he, hg, me3.1, by simp [step, hl, he], by simp [step, hl, he]⟩)
+      have e1 : (step s t).thr t = .rLen g := by simp [step, hl, he]
+      exact Or.inr (Or.inr ⟨id, idx, g, rfl, he, hg, me3.1, by simp [step, hl, he], e1,
+        ⟨max 1 (U32.wsub (U32.wrap g) (U32.wrap (step s t).head)), by rw [step_rLen _ t g e1]; simp⟩⟩)
     · left; simp only [step, hl, he, if_false]; split <;> rfl
   | _ =>
     left
